@@ -323,8 +323,14 @@ def gen_tv_ann(rng, tv, other):
     return ("generic", G.TUPLE, [T])
 
 
+def nested_intenum(o):
+    """An IntEnum member inside a container: [IE.X] == [1] in Python, which the shared object model (Obj.pyEq) does not
+    represent (an IntEnum member is only distinguished from its int value at top level, by its type)."""
+    return any(x[0] == "inst" and x[1] == V.CID[U.IE] for x in subobjs(o) if x is not o)
+
+
 def literal_ok(o):
-    return obj_src(o) is not None and not same_not_identical(o)
+    return obj_src(o) is not None and not same_not_identical(o) and not nested_intenum(o)
 
 
 def gen_literal(rng, t, tvfill):
@@ -416,8 +422,9 @@ def random_callable(rng, depth):
         else:
             has_d = False
         if has_d:
-            fill = {tv: rng.choice(FILL[:5]) for tv in (0, 1, 3)}
-            fill[2] = ("typed", G.INT)
+            fill = {tv: rng.choice(FILL[:5]) for tv in (0, 1)}
+            fill[2] = rng.choice([("typed", G.INT), ("typed", G.BOOL)])
+            fill[3] = rng.choice([("typed", G.INT), ("typed", G.STR)])
             for _ in range(12):
                 cand = G.gen_obj_for(rng, subst_term(ann, fill))
                 if literal_ok(cand) and G.member(V.obj_to_py(cand), subst_term(ann, fill)) and \
@@ -906,6 +913,19 @@ def item_from_json(d):
     return (cc, calls)
 
 
+TV_FILLS = [{0: ("any",), 1: ("any",), 2: ("typed", G.INT), 3: t} for t in (("typed", G.INT), ("typed", G.STR))]
+
+
+def defaults_ok(c):
+    """The function itself is well typed as far as its defaults go (pyanalyze reports `incompatible_default` at the def
+    otherwise; the result clause speaks about well-typed template functions). For a type-variable-bearing annotation the
+    default must fit some admissible instantiation (bound / constraints respected)."""
+    for (n, k, d, a) in c["params"]:
+        if d is not None and not any(G.member(V.obj_to_py(d), subst_term(a, f)) for f in TV_FILLS):
+            return False
+    return True
+
+
 def callable_text(c):
     return "%s(%s) -> %s: %s" % (c["kind"], header_src(c["params"]), ty_src(c["ret"]), body_src(c["tmpl"]))
 
@@ -972,7 +992,8 @@ def evaluate(ctx, items, with_model=True):
                         mv_e2e = "OK:" + mv[6:]
                     elif mv.startswith("OK:") and mv != "OK:":
                         mv_e2e = "OK:" + ",".join(emitted(mv[3:].split(","), c["params"]))
-                    from_set = any(x[0] in ("set", "fset") for o in call[0] + [v for _, v in call[1]] for x in subobjs(o))
+                    from_set = any(x[0] in ("set", "fset") for o in call[0] + [v for _, v in call[1]] +
+                                   [p[2] for p in c["params"] if p[2] is not None] for x in subobjs(o))
                     cu = canon_unions if from_set else (lambda z: z)
                     ctx.tag("model_" + mv.split(":")[0])
                     # ---- correspondence
@@ -1022,10 +1043,16 @@ def evaluate(ctx, items, with_model=True):
                             rs = V.obj_sexp(V.canon_obj(V.py_to_obj(executed[1])))
                         except V.Unencodable:
                             rs = None
-                        if rs is not None and rs != m["res"]:
+                        holder = land[c["tmpl"][1]] if c["tmpl"][0] in ("param", "elem") else None
+                        indexable = holder is None or c["tmpl"][0] == "param" or (
+                            holder[0] == "star" or (holder[0] == "one" and type(holder[1]) in (list, tuple)) or
+                            (holder[0] == "dflt"))
+                        # `p[0]` of a str / dict / ... argument is outside the template's domain (the spec says NA)
+                        if rs is not None and rs != m["res"] and (indexable or m["res"] != "NA"):
                             ctx.disagree("spec-res", short, rs, m["res"])
                     elif m["res"] != "NA":
                         ctx.disagree("spec-res", short, "raises %s" % executed[1], m["res"])
+
                 if nsample % 701 == 0:
                     ctx.sample(dict(short, pyanalyze=r["verdict"], inferred=r["type"], model=(m or {}).get("v"),
                                     binds=binds, executed=repr(executed)[:80]))
@@ -1046,7 +1073,8 @@ def evaluate(ctx, items, with_model=True):
                 if binds and r["verdict"] == "CALL" and not generic and not r["other"]:
                     # a call that binds under CPython but is rejected by the binder is C05's business; recorded, not judged here
                     ctx.tag("binds_but_incompatible_call")
-                if binds and not reported and executed is not None and executed[0] == "ok" and r["term"] is not None:
+                if binds and not reported and executed is not None and executed[0] == "ok" and r["term"] is not None \
+                        and defaults_ok(c):
                     ctx.tag("P2")
                     t = r["term"]
                     res = executed[1]
